@@ -175,6 +175,7 @@ type built struct {
 	compH    map[int][]scte35.ComponentOffset // handles from Components(), kept across encodings
 	midH     map[int][]scte35.UPID            // handles from MID(), kept across encodings
 	last     []byte
+	looked   bool // Data() has been looked at (or UpdateData() called) at least once: b.last is what it must still return
 	hist     []string
 	dead     bool
 	kinds    map[string]bool
@@ -204,6 +205,9 @@ func newBuilt(c *mon.Ctx, r *gen.Rand) *built {
 	if b.x.Tier() != 0xfff || b.x.Command() != scte35.SpliceNull || len(b.x.Descriptors()) != 0 {
 		b.fail("create:starting-point", "after SetCommandInfo(splice_null), SetTier(0xFFF), SetDescriptors(nil) the getters report something else", nil, nil)
 	}
+	if r.Bool() {
+		b.dataUnchanged("creation") // the first look
+	}
 	return b
 }
 
@@ -230,6 +234,14 @@ func (b *built) val(width uint) uint64 {
 }
 
 func (b *built) dataUnchanged(op string) {
+	if !b.looked {
+		// what a created, never encoded signal hands out (nothing, or a first encoding made on demand) is the
+		// library's choice; from the first look on it may change only by re-encoding
+		b.last = append([]byte{}, b.x.Data()...)
+		b.looked = true
+		b.c.Count("created.first_look_at_data")
+		return
+	}
 	if !bytes.Equal(b.x.Data(), b.last) {
 		b.fail("data-changed-by-setter", fmt.Sprintf("Data() changed after %s without a call to UpdateData()", op), b.x.Data(), b.last)
 	}
@@ -691,6 +703,23 @@ func (b *built) descOp() {
 		}
 	case 10:
 		f := r.Bool() && (m.Type == 0x34 || m.Type == 0x36)
+		if !f && m.Type != 0x34 && m.Type != 0x36 && r.Chance(3) {
+			// the flag first, the type that carries the fields second (setters come in any order; no encoding
+			// lies between the two calls, so "the next encoding" is one of a placement-opportunity start)
+			v := r.PickByte([]byte{0x34, 0x36})
+			b.log(p+"SetHasSubSegments(true); SetTypeID(%#x)", v)
+			d.SetHasSubSegments(true)
+			if !d.HasSubSegments() {
+				bad("has-sub-segments")
+			}
+			d.SetTypeID(scte35.SegDescType(v))
+			m.Type, m.HasSub = v, true
+			if byte(d.TypeID()) != v || !d.HasSubSegments() {
+				bad("has-sub-segments-set-before-type")
+			}
+			b.kinds["sub-segments"] = true
+			break
+		}
 		b.log(p+"SetHasSubSegments(%v)", f)
 		d.SetHasSubSegments(f)
 		m.HasSub = f
@@ -848,6 +877,7 @@ func (b *built) checkpoint(viaString bool) {
 	}
 	b.c.Eval(1)
 	b.last = append([]byte{}, got...)
+	b.looked = true
 	if len(got) < 4 || ref.CRC32MPEG2(got) != 0 {
 		b.fail("encode:crc", "the CRC-32/MPEG-2 over the encoded section is not zero", got, want)
 		return
@@ -1371,7 +1401,7 @@ func ownHandles(c *mon.Ctx, r *gen.Rand) {
 
 func run(c *mon.Ctx) {
 	c.Rule("(a) canonical sections from the reference encoder (incl. foreign descriptors, cw_index, component lists) decoded and re-encoded; (b) the same field values built through Create*/Set* and encoded; (d) random histories of 5..40 setter calls (set, overwrite, clear, out-of-range values, command and descriptor replacement) with a reference encoding of the final logical values at every UpdateData()/String() checkpoint, decoded again and compared getter by getter; (f) sections longer than 1023 bytes. distinct non-trivial = distinct (stream, command shape, descriptor shapes / kinds of setters used) with at least one descriptor or a non-null command")
-	c.Assume("API gaps: cw_index, encryption_algorithm, foreign descriptors and splice_insert component lists cannot be set through the API and are covered by (a) only. Domain restrictions (DESIGN section 3): SetHasSubSegments(true) only on types 0x34/0x36; device restrictions in 0..3; when a command stores a time that it does not encode, pts_adjustment is masked in the byte comparison; delivery sub-flags, durations, components and sub-segment numbers are compared after decoding only where their governing flag makes them present")
+	c.Assume("API gaps: cw_index, encryption_algorithm, foreign descriptors and splice_insert component lists cannot be set through the API and are covered by (a) only. Domain restrictions (DESIGN section 3): SetHasSubSegments(true) only on types 0x34/0x36 or directly followed by SetTypeID(0x34/0x36); device restrictions in 0..3; when a command stores a time that it does not encode, pts_adjustment is masked in the byte comparison; delivery sub-flags, durations, components and sub-segment numbers are compared after decoding only where their governing flag makes them present")
 	c.Floor("reencode.foreign_after_segmentation", 50)
 	c.Floor("large.sections", 20)
 	c.Floor("reencode.noncanonical_input/cmdlen-0xfff,", 500)
